@@ -6,6 +6,7 @@ import (
 	"math/big"
 	"sync/atomic"
 
+	"github.com/skycoin/skycoin/src/cipher"
 	"github.com/skycoin/skycoin/src/visor"
 
 	"verif/engine"
@@ -15,6 +16,13 @@ import (
 // Alphabet (exhaustive product): size 1..100 × list length 0..L × page numbers {1..N+3} ∪ huge boundary pages.
 // Oracle: pages 1..N concatenate to the list exactly once; reported page count = N = ceil(len/size); pages > N are empty.
 func init() { register("C29", "exploration", c29) }
+
+type pageCase struct {
+	Filter string
+	Order  string
+	Size   uint64
+	Page   uint64
+}
 
 func c29(r *engine.Run) {
 	maxLen := r.Pick(120, 250)
@@ -121,6 +129,9 @@ func c29(r *engine.Run) {
 		}
 		outcomes.Add("invalid-index-rejected")
 	}
+	realEvals, realNT := c29RealNode(r, outcomes)
+	evals += int64(realEvals)
+	nontrivial += int64(realNT)
 	if outcomes.Len() < 3 {
 		r.Broken("vacuous: outcome classes %v", outcomes.Map())
 	}
@@ -136,4 +147,121 @@ func c29(r *engine.Run) {
 		"outcome_histogram":   outcomes.Map(),
 		"alphabet":            map[string]interface{}{"sizes": 100, "lengths": maxLen + 1},
 	})
+}
+
+
+// c29RealNode pages the address queries of a REAL node: a follower Visor holding a 7-block chain built from the fixture, with
+// pending transactions on top.  For every filter × order × page size the pages 1..N must be consecutive slices of the unpaged
+// result (which C07 compares with the chain), the reported page count must be N, and pages beyond N must be empty.
+func c29RealNode(r *engine.Run, outcomes *engine.Counter) (int, int) {
+	w := worldsFor("follower")[0]
+	chain, _ := publisherChain(w, 7)
+	n := freshNode(w)
+	defer n.close()
+	for i := 1; i < len(chain); i++ {
+		if err := n.V.ExecuteSignedBlock(chain[i]); err != nil {
+			r.Broken("C29 fixture: block %d refused: %v", i, err)
+			return 0, 0
+		}
+		n.M.Apply(chain[i])
+	}
+	for _, name := range []string{"pay-G-A", "pay-A-B", "pay-B-A"} {
+		if t := instantiate(n.M, name); t != nil {
+			n.V.InjectForeignTransaction(*t)
+		}
+	}
+	filters := map[string][]visor.TxFilter{
+		"none":            nil,
+		"genesis":         {visor.NewAddrsFilter([]cipher.Address{idG.Addr})},
+		"alice":           {visor.NewAddrsFilter([]cipher.Address{idA.Addr})},
+		"alice+bob":       {visor.NewAddrsFilter([]cipher.Address{idA.Addr, idB.Addr})},
+		"alice-confirmed": {visor.NewAddrsFilter([]cipher.Address{idA.Addr}), visor.NewConfirmedTxFilter(true)},
+		"unconfirmed":     {visor.NewConfirmedTxFilter(false)},
+		"nobody":          {visor.NewAddrsFilter([]cipher.Address{unknownAddr})},
+	}
+	evals, nt := 0, 0
+	hashes := func(ts []visor.Transaction) []string {
+		var o []string
+		for _, t := range ts {
+			o = append(o, hx(t.Transaction.Hash()))
+		}
+		return o
+	}
+	for fname, flts := range filters {
+		for oname, order := range map[string]visor.SortOrder{"asc": visor.AscOrder, "desc": visor.DescOrder} {
+			all, _, err := n.V.GetTransactions(flts, order, nil)
+			if err != nil {
+				r.Failf("GetTransactions:unpaged-error", pageCase{fname, oname, 0, 0}, "%v", err)
+				continue
+			}
+			full := hashes(all)
+			L := uint64(len(full))
+			for _, size := range []uint64{1, 2, 3, 4, 7, 10, 100} {
+				N := L / size
+				if L%size != 0 {
+					N++
+				}
+				pages := []uint64{}
+				for p := uint64(1); p <= N+3; p++ {
+					pages = append(pages, p)
+				}
+				for _, h := range []uint64{1 << 32, 1 << 63, 1<<63 + 1, math.MaxUint64, math.MaxUint64/size + 1, math.MaxUint64/size + 2} {
+					if h > N+3 { // (the last two wrap to 0 / 1 for size 1)
+						pages = append(pages, h)
+					}
+				}
+				var concat []string
+				for _, p := range pages {
+					evals++
+					pi, err := visor.NewPageIndex(size, p)
+					if err != nil {
+						r.Failf("NewPageIndex:unexpected-error", pageCase{fname, oname, size, p}, "%v", err)
+						continue
+					}
+					var got []visor.Transaction
+					var total uint64
+					pan, msg := engine.Catch(func() { got, total, err = n.V.GetTransactions(flts, order, pi) })
+					cs := pageCase{fname, oname, size, p}
+					if pan {
+						r.Failf("Visor.GetTransactions:paged:panic", cs, "filter %s order %s size %d page %d (list of %d): panic %s", fname, oname, size, p, L, msg)
+						continue
+					}
+					if err != nil {
+						r.Failf("Visor.GetTransactions:paged:error", cs, "filter %s order %s size %d page %d: %v", fname, oname, size, p, err)
+						continue
+					}
+					if total != N {
+						r.Failf("Visor.GetTransactions:paged:total-pages", cs, "filter %s order %s size %d page %d: reported %d pages, list of %d items needs %d", fname, oname, size, p, total, L, N)
+					}
+					var want []string
+					if p <= N {
+						s, e := size*(p-1), size*p
+						if e > L {
+							e = L
+						}
+						want = full[s:e]
+						concat = append(concat, hashes(got)...)
+						outcomes.Add("real-node-data-page")
+						if L%size != 0 && p == N {
+							nt++
+						}
+					} else {
+						outcomes.Add("real-node-page-beyond-last")
+						nt++
+					}
+					if fmt.Sprint(hashes(got)) != fmt.Sprint(want) {
+						sig := "Visor.GetTransactions:paged:wrong-slice"
+						if p > N && len(got) > 0 {
+							sig = "Visor.GetTransactions:paged:page-beyond-last-returns-data"
+						}
+						r.Failf(sig, cs, "filter %s order %s size %d page %d of a list of %d: got %v want %v", fname, oname, size, p, L, hashes(got), want)
+					}
+				}
+				if fmt.Sprint(concat) != fmt.Sprint(full) {
+					r.Failf("Visor.GetTransactions:paged:pages-do-not-partition-the-list", pageCase{fname, oname, size, 0}, "filter %s order %s size %d: pages 1..%d give %v, unpaged list %v", fname, oname, size, N, concat, full)
+				}
+			}
+		}
+	}
+	return evals, nt
 }
